@@ -28,6 +28,7 @@ ID = "C32"
 LEVEL = "fault_enumeration"
 IN_PROCESS = False
 CHUNK_TIMEOUT = 900
+MAX_PARALLEL_CHUNKS = 8  # every chunk keeps several busy threads alive: more than 8 at a time starve each other's abandoned threads
 BOUND = 1  # seconds, maximum_test_execution_timeout
 RULE = (
     "schedules = sequences of terminating tests and looping tests (busy / sleep 0.05-0.3 s / sleep longer than the second join / "
@@ -198,6 +199,7 @@ CONFIGS = [(1, 1), (2, 0.25), (2, 0.5)]
 PAD = 8
 SHORT = "blocked-shorter-than-second-join"
 LONG = "blocked-longer-than-second-join"
+CLOSE = "blocked-between-half-and-whole-second-join"
 
 
 def floors(tier):
@@ -347,7 +349,9 @@ def _scan(ctx, schedule, delay, cfg, base, records, descr, count=True):
         b = base[entry["kind"]]
         if loops_before:
             ckind, cblk = max(loops_before, key=lambda kb: kb[1])
-            timing = LONG if cblk > cfg[0] else SHORT
+            # a block between half of the second join and the whole of it leaves no margin for a descheduled thread on a busy
+            # machine (the thorough tier loads the machine itself): its own class, a lost result there is an anomaly
+            timing = LONG if cblk > cfg[0] else (CLOSE if cblk > 0.5 * cfg[0] else SHORT)
         if summ["timeout"] and set(summ["lines"]) <= set(b["import_lines"]):
             allowed = min(cfg[0], cfg[1] * len(entry["lines"]))
             if dt >= 0.9 * allowed:
@@ -418,7 +422,9 @@ def _judge(ctx, sp, schedule, delay, cfg, base, records, calib_test, descr):
                         {"schedule": descr, "delay_in_check": delay, "config": list(cfg), "position": i, "test": e["lines"]})
     for i, (kind, timing) in lost.items():
         e = schedule[i]
-        if lost_n[i] < 2:
+        if timing == CLOSE:
+            ctx.anomaly("later_result_lost_with_block_close_to_second_join")
+        elif lost_n[i] < 2:
             ctx.anomaly("later_result_lost_not_reproduced")
         elif cal > 0.5:
             ctx.anomaly("later_result_lost_on_overloaded_machine")
